@@ -202,6 +202,35 @@ func runC12(c *Ctx) {
 		}
 	}
 
+	// ---- R10 a staged write of a key ends any earlier staged delete of it: cache.set clears the
+	// deleted mark and stores the value on every path (a shortcut for "same bytes" would leave
+	// a deleted-then-rewritten key deleted)
+	if setFn := c.Anchor("pkg/db/diffdb.(*cacheDB).set"); setFn != nil {
+		for _, fld := range []string{"deleted", "value", "dirty"} {
+			isSt := func(in ssa.Instruction) bool {
+				st, ok := in.(*ssa.Store)
+				if !ok {
+					return false
+				}
+				fa, ok := st.Addr.(*ssa.FieldAddr)
+				if !ok {
+					return false
+				}
+				o, s := ownerOfFieldBase(fa.X.Type())
+				return o == "db/diffdb.cacheValue" && s.Field(fa.Field).Name() == fld
+			}
+			first := setFn.Blocks[0].Instrs[0]
+			path := reachesReturnAvoiding(first, isSt, nil)
+			c.Require("C12.R10 set-ends-staged-delete", FuncKey(setFn)+": "+fld, p.Pos(setFn.Pos()), "every return of cache.set is preceded by the assignment of "+fld, path == nil, pathStr(path))
+		}
+		// and the mark is cleared, not set
+		okFalse := false
+		for _, st := range storesToField(setFn, "db/diffdb.cacheValue", "deleted") {
+			okFalse = T(st.Val).String() == "false"
+		}
+		c.Require("C12.R10 set-ends-staged-delete", FuncKey(setFn)+": deleted = false", p.Pos(setFn.Pos()), "the deleted mark is cleared", okFalse, "")
+	}
+
 	// ---- R4 sentinel preservation
 	checkSentinelProducers(c, "C12.R4 sentinel-preserved", commit)
 
@@ -212,6 +241,56 @@ func runC12(c *Ctx) {
 	// ---- R8 the overlay shared by a store and its prefix views is never re-pointed (a
 	// snapshot restore must take effect for every view, not only for the handle it is called on)
 	checkSharedRefNotRepointed(c, "C12.R8 shared-overlay-not-repointed", []string{"pkg/db/diffdb"}, 1)
+
+	// ---- R9 the database's own range scan keeps both bounds in both directions: every key it
+	// collects is under  Compare(key, end) <= 0  and above start, where a bound counts as
+	// enforced by a comparison with the bound itself or — lower bound, ascending scan — by
+	// seeking to the bound itself. Seeking to something derived from a bound (its successor
+	// prefix) lets longer keys through.
+	if ir := c.Anchor("pkg/db.iterateRange"); ir != nil {
+		ff := factsOf(ir)
+		n := 0
+		for _, call := range AllCallsDeep(ir) {
+			if CalleeName(call.Common()) != "builtin:append" {
+				continue
+			}
+			if !strings.Contains(typeName(call.Common().Args[0].Type()), "KeyValue") {
+				continue
+			}
+			n++
+			blk := call.Block()
+			cmpWith := func(param string, rel Rel) bool {
+				for _, f := range ff.FactsAt(blk) {
+					if !f.IsCmp {
+						continue
+					}
+					l, r := f.L, f.R
+					if l.Op == "call" && strings.HasSuffix(l.Sym, "bytes.Compare") && len(l.Args) == 2 && l.Args[1].String() == param && strings.Contains(l.Args[0].String(), "Iterator).Key") && r.String() == "0" {
+						if k, rl, d, ok := canonCmp(f); ok && k != "" {
+							if rel == LE && ((rl == LE && d <= 0) || (rl == EQ && d == 0)) {
+								return true
+							}
+							if rel == GE && ((rl == GE && d >= 0) || (rl == EQ && d == 0)) {
+								return true
+							}
+						}
+					}
+				}
+				return false
+			}
+			seekGEStart := false
+			for _, s := range CallsIn(ir, "(*github.com/cockroachdb/pebble.Iterator).SeekGE") {
+				if instrDominates(s.Call, call) && T(s.Call.Common().Args[1]).String() == "p1" && !reachable2(s.Call.Block(), s.Call.Block()) {
+					// ascending scan from start: only valid when this append is not also reached from the descending seek
+					seekGEStart = true
+				}
+			}
+			lower := cmpWith("p1", GE) || seekGEStart
+			upper := cmpWith("p2", LE)
+			c.Require("C12.R9 scan-keeps-both-bounds", fmt.Sprintf("%s: collected key #%d", FuncKey(ir), n), p.InstrPos(call), "every collected key is >= start (comparison, or ascending seek to start itself) and <= end (comparison with end itself)", lower && upper, fmt.Sprintf("lower bound enforced=%v upper bound enforced=%v", lower, upper))
+		}
+		c.MinInstances("C12.R9 scan-keeps-both-bounds", n, 2)
+	}
 
 	// ---- R5 merge
 	{
